@@ -326,6 +326,16 @@ def run(ctx):
         # -k: the table also holds the queue of saved files; the pipeline that converts them runs after the downloads,
         # so the commits of the last stretch of the run (kill points like all others) fall into it
         opts['convert_links'] = plan == 3 or rng.random() < 0.2
+        if plan == 2 or rng.random() < 0.15:
+            # a download that does not recurse but takes the page's requisites (-p without -r): after the start page
+            # is done the table holds only requisites; a kill then, and the rerun has no start URL left to do
+            opts['recursive'] = False
+            opts['page_requisites'] = True
+            root = site.pages[site.start]
+            if root.get('kind') == 'html':
+                for k in range(2):
+                    site.pages['/req%d.png' % k] = {'kind': 'leaf', 'ctype': 'image/png'}
+                    root['links'].append(('/req%d.png' % k, True))
         leaves = [p for p, d in site.pages.items() if d['kind'] == 'leaf']
         if leaves and (plan == 1 or rng.random() < 0.25):
             site.pages[rng.choice(leaves)] = {'kind': 'flaky'}
